@@ -1084,7 +1084,12 @@ class AbelianArray(BlockBase):
             if self._blocks:
                 # infer the charge total from any sector
                 sector = next(iter(self._blocks))
-                self._charge = self.symmetry.combine(*sector)
+                self._charge = self.symmetry.combine(
+                    *(
+                        self.symmetry.sign(c, ix.dual)
+                        for c, ix in zip(sector, self._indices)
+                    )
+                )
             else:
                 # default to the identity charge
                 self._charge = self.symmetry.combine()
